@@ -19,7 +19,7 @@ import (
 type c12Val struct {
 	src    string
 	ref    ref.Value
-	opaque bool // function / extension / quote: no reference ordering, axioms only
+	opaque bool   // function / extension / quote: no reference ordering, axioms only
 	eqTag  string // opaque values with the same tag must be order-equivalent and ==
 }
 
@@ -66,6 +66,22 @@ func c12Universe(quick bool) []c12Val {
 	for _, m := range maps {
 		add(m)
 	}
+	// values with a history (defined by c12Prelude): slices sharing the storage of a large array, large-representation
+	// maps reduced below the small/large threshold, a literal with repeated keys
+	rng := func(a, b int) ref.Value {
+		var els []ref.Value
+		for i := a; i < b; i++ {
+			els = append(els, ref.Int(int64(i)))
+		}
+		return ref.Value{Kind: ref.KArray, A: els}
+	}
+	four := mp(ref.Int(1), one, ref.Int(2), one, ref.Int(3), one, ref.Int(4), one)
+	u = append(u,
+		c12Val{src: "vb12", ref: rng(0, 12)}, c12Val{src: "vb12[0:10]", ref: rng(0, 10)}, c12Val{src: "vb12[0:9]", ref: rng(0, 9)},
+		c12Val{src: "vb12[1:11]", ref: rng(1, 11)}, c12Val{src: "vb12[0:0]", ref: ref.Arr()}, c12Val{src: "[0, 1, 2, 3, 4, 5, 6, 7, 8, 9]", ref: rng(0, 10)},
+		c12Val{src: "vms", ref: four}, c12Val{src: "{1:1, 2:1, 3:1, 4:1}", ref: four}, c12Val{src: "vme", ref: mp()}, c12Val{src: "vmd", ref: mp(one, ref.Int(6))},
+		c12Val{src: "[vms]", ref: ref.Arr(four)}, c12Val{src: "{1: vb12[0:10]}", ref: mp(one, rng(0, 10))},
+	)
 	// opaque values
 	u = append(u,
 		c12Val{src: "func(x){x}", opaque: true, eqTag: "idfn"},
@@ -113,6 +129,10 @@ func c12Universe(quick bool) []c12Val {
 	return u
 }
 
+// c12Prelude defines the variables the derived universe values refer to; it is evaluated first in every state.
+const c12Prelude = "vb12 = [0, 1, 2, 3, 4, 5, 6, 7, 8, 9, 10, 11]; vms = {1:1, 2:1, 3:1, 4:1, 5:1}; del(vms[5]); " +
+	"vme = {1:1, 2:1, 3:1, 4:1, 5:1}; del(vme[1]); del(vme[2]); del(vme[3]); del(vme[4]); del(vme[5]); vmd = {1:1, 1:2, 1:3, 1:4, 1:5, 1:6}\n"
+
 func sign(x int) int {
 	switch {
 	case x < 0:
@@ -146,6 +166,9 @@ func c12Objects(u []c12Val) ([]object.Object, string) {
 	s := eval.NewState()
 	s.Out, s.LogOut = io.Discard, io.Discard
 	objs := make([]object.Object, len(u))
+	if o, perr := evalSrc(s, c12Prelude); perr != "" || o.Type() == object.ERROR {
+		return nil, "prelude: " + perr
+	}
 	for i, v := range u {
 		o, perr := evalSrc(s, v.src)
 		if perr != "" {
@@ -340,7 +363,7 @@ func firstLine(s string) string {
 func c12EvalBools(src string) ([]bool, string) {
 	s := eval.NewState()
 	s.Out, s.LogOut = io.Discard, io.Discard
-	o, perr := evalSrc(s, src)
+	o, perr := evalSrc(s, c12Prelude+src)
 	if perr != "" {
 		return nil, perr
 	}
@@ -413,7 +436,7 @@ func c12SrcPair(x, y c12Val, cs core.Case) *core.Viol {
 		// min / max agree with the ordering
 		s := eval.NewState()
 		s.Out, s.LogOut = io.Discard, io.Discard
-		o, perr := evalSrc(s, "[min("+x.src+","+y.src+"), max("+x.src+","+y.src+")]")
+		o, perr := evalSrc(s, c12Prelude+"[min("+x.src+","+y.src+"), max("+x.src+","+y.src+")]")
 		if perr != "" || o.Type() == object.ERROR {
 			return &core.Viol{Class: "minmax-error", Detail: perr + o.Inspect(), Case: cs}
 		}
@@ -441,49 +464,62 @@ func c12Keys(x, y, z c12Val, cs core.Case) *core.Viol {
 	// all 6 insertion orders give the same map, iterated in reference order, and every key is found
 	var first string
 	perms := [][3]int{{0, 1, 2}, {0, 2, 1}, {1, 0, 2}, {1, 2, 0}, {2, 0, 1}, {2, 1, 0}}
-	for _, p := range perms {
-		mod := ref.NewMap()
-		var parts []string
-		for pos, idx := range p {
-			_ = pos
-			parts = append(parts, vals[idx].src+":"+fmt.Sprint(idx))
-		}
-		src := "m = {" + strings.Join(parts, ", ") + "}; [m, m[" + x.src + "], m[" + y.src + "], m[" + z.src + "], len(m)]"
-		s := eval.NewState()
-		s.Out, s.LogOut = io.Discard, io.Discard
-		o, perr := evalSrc(s, src)
-		if perr != "" || o.Type() == object.ERROR {
-			return &core.Viol{Class: "keys-error", Detail: perr + o.Inspect() + " in " + src, Case: cs}
-		}
-		for _, idx := range p {
-			mod = ref.MapSet(mod, vals[idx].ref, ref.Int(int64(idx)))
-		}
-		els := object.Elements(o)
-		// iteration order must follow the ordering (keys strictly increasing by the reference)
-		got := obs.DumpValue(els[0])
-		// compare key sequence and values with the model (the stored representative of equivalent keys is the first inserted)
-		if got != ref.Dump(mod) {
-			return &core.Viol{Class: "keys-vs-reference", Detail: fmt.Sprintf("%s gave %s reference %s", src, got, ref.Dump(mod)), Case: cs}
-		}
-		for q, v := range vals {
-			want, _ := ref.MapGet(mod, v.ref)
-			if obs.DumpValue(els[1+q]) != ref.Dump(want) {
-				return &core.Viol{Class: "keys-lookup", Detail: fmt.Sprintf("%s: lookup of %s gave %s reference %s", src, v.src, obs.DumpValue(els[1+q]), ref.Dump(want)), Case: cs}
+	for pi, p := range perms {
+		for _, padded := range []bool{false, true} {
+			mod := ref.NewMap()
+			var parts []string
+			if padded {
+				// three more keys make it a large-representation map (other key comparison and storage code);
+				// built by literal for the even permutations and by index assignment for the odd ones
+				parts = append(parts, `"pad1":7`, `"pad2":8`, `"pad3":9`)
+				mod = ref.MapSet(ref.MapSet(ref.MapSet(mod, ref.Str("pad1"), ref.Int(7)), ref.Str("pad2"), ref.Int(8)), ref.Str("pad3"), ref.Int(9))
 			}
+			var assigns []string
+			for pos, idx := range p {
+				_ = pos
+				if padded && pi%2 == 1 {
+					assigns = append(assigns, "m["+vals[idx].src+"] = "+fmt.Sprint(idx))
+					continue
+				}
+				parts = append(parts, vals[idx].src+":"+fmt.Sprint(idx))
+			}
+			src := c12Prelude + "m = {" + strings.Join(parts, ", ") + "}; " + strings.Join(append(assigns, ""), "; ") + "[m, m[" + x.src + "], m[" + y.src + "], m[" + z.src + "], len(m)]"
+			s := eval.NewState()
+			s.Out, s.LogOut = io.Discard, io.Discard
+			o, perr := evalSrc(s, src)
+			if perr != "" || o.Type() == object.ERROR {
+				return &core.Viol{Class: "keys-error", Detail: perr + o.Inspect() + " in " + src, Case: cs}
+			}
+			for _, idx := range p {
+				mod = ref.MapSet(mod, vals[idx].ref, ref.Int(int64(idx)))
+			}
+			els := object.Elements(o)
+			// iteration order must follow the ordering (keys strictly increasing by the reference)
+			got := obs.DumpValue(els[0])
+			// compare key sequence and values with the model (the stored representative of equivalent keys is the first inserted)
+			if got != ref.Dump(mod) {
+				return &core.Viol{Class: "keys-vs-reference", Detail: fmt.Sprintf("%s gave %s reference %s", src, got, ref.Dump(mod)), Case: cs}
+			}
+			for q, v := range vals {
+				want, _ := ref.MapGet(mod, v.ref)
+				if obs.DumpValue(els[1+q]) != ref.Dump(want) {
+					return &core.Viol{Class: "keys-lookup", Detail: fmt.Sprintf("%s: lookup of %s gave %s reference %s", src, v.src, obs.DumpValue(els[1+q]), ref.Dump(want)), Case: cs}
+				}
+			}
+			if obs.DumpValue(els[4]) != fmt.Sprintf("I:%d", len(mod.M)) {
+				return &core.Viol{Class: "keys-len", Detail: src, Case: cs}
+			}
+			_ = first
 		}
-		if obs.DumpValue(els[4]) != fmt.Sprintf("I:%d", len(mod.M)) {
-			return &core.Viol{Class: "keys-len", Detail: src, Case: cs}
-		}
-		_ = first
 	}
 	return nil
 }
 
 func init() {
 	core.Register(&core.Check{
-		ID:    "C12",
-		Level: "exploration",
-		Rule: "curated universe of ~75 values (quick ~70) built from source literals: integers around 2^53 and both int64 extremes next to the same magnitudes as floats, -0, NaN, infinities, bools, nil, strings incl. NUL/0xFF, arrays and maps (empty, equal length, prefixes, nested, large, containing NaN / big ints), functions (same and different text, named), extension functions, quote objects. All pairs and all triples at the API (Cmp, Equals: reflexive, antisymmetric, transitive, == an equivalence implying order-equivalence, copy equality, agreement with the reference ordering); all pairs through source for < <= > >= == != in three contexts (literals, parameters i.e. registers, outer variables i.e. references), min/max; every 3-subset as map keys in all 6 insertion orders. Non-trivial = every case (each compares at least two values).",
+		ID:       "C12",
+		Level:    "exploration",
+		Rule:     "curated universe of ~75 values (quick ~70) built from source literals: integers around 2^53 and both int64 extremes next to the same magnitudes as floats, -0, NaN, infinities, bools, nil, strings incl. NUL/0xFF, arrays and maps (empty, equal length, prefixes, nested, large, containing NaN / big ints), functions (same and different text, named), extension functions, quote objects. All pairs and all triples at the API (Cmp, Equals: reflexive, antisymmetric, transitive, == an equivalence implying order-equivalence, copy equality, agreement with the reference ordering); all pairs through source for < <= > >= == != in three contexts (literals, parameters i.e. registers, outer variables i.e. references), min/max; every 3-subset as map keys in all 6 insertion orders, alone (small map) and next to three padding keys (large map, built by literal or by index assignment). The universe includes values with a history: slices sharing the storage of a 12-element array, large maps reduced under the small/large threshold or emptied, a literal with repeated keys. Non-trivial = every case (each compares at least two values).",
 		Assume:   []string{"reference ordering of DESIGN.md §5 (numbers compared exactly across int/float)", "functions/extensions/quotes are checked against the axioms only"},
 		QuickCap: 100 * time.Second, ThoroughCap: 15 * time.Minute,
 		Run: runC12,
